@@ -451,7 +451,7 @@ def c13(tier):
     chk.add_report(rep, f"builder:{prof}")
     if rep['machines'] != len(structs) - chk.last_dropped:
         core.vacuous("builder machines missing")
-    chk.bounds.append("builder layouts: all compositions of N<=" + ("8" if tier == 'quick' else "10") + " bits into 1-4 fields (several declaration orders; complete / with default / read-only part / uncovered gap), "
+    chk.bounds.append("builder layouts: all compositions of N<=" + ("8" if tier == 'quick' else "14") + " bits into 1-4 fields (several declaration orders; complete / with default / read-only part / uncovered gap), "
                       "arrays of every K for bool/u1/u2/u4 on u8/u16, K in {2,3,4,5,7,8,16,32,64,128} on wide bases, multi-range / interleaved / signed / enum / nested steps, arbitrary-int bases; "
                       "argument tuples: full product when <= cap, otherwise one factor at a time over 4 backgrounds; oracle = fold of with_ from DEFAULT/ZERO on the implementation and REG from the declared default")
     return chk.finish()
@@ -468,11 +468,11 @@ def c19(tier):
     ws = build_set(chk, f"debug-{tier}", structs, prof)
     if ws is None:
         return chk.finish()
-    rep = B.run(ws, prof, 'debug', ['--full-n', 12 if tier == 'quick' else 16], out_name=f"report-C19-{prof}.json")
+    rep = B.run(ws, prof, 'debug', ['--full-n', 12 if tier == 'quick' else 20], out_name=f"report-C19-{prof}.json")
     chk.add_report(rep, f"debug:{prof}")
     if rep['machines'] != len(structs) - chk.last_dropped:
         core.vacuous("debug machines missing")
-    chk.bounds.append("debug layouts over bases " + ("{u3,u8,u12,u16,u24,u32,u64,u100,u128}" if tier == 'quick' else "u1..u16 and 13 wide bases") +
+    chk.bounds.append("debug layouts over bases " + ("{u3,u8,u12,u16,u24,u32,u64,u100,u128}" if tier == 'quick' else "u1..u20 and 12 wide bases") +
                       ": single fields of every kind (bool, uN, native, signed, exhaustive enum, Option<enum>, nested debug bitfield, multi-range), windows of 2-5 fields in three declaration orders, all kinds at once (both orders), "
                       "no fields; both {:?} and {:#?}; all 2^N raw values for N<=" + ("12" if tier == 'quick' else "16") + ", A(N) above; expected text = derive(Debug) twin filled from the reference register")
     return chk.finish()
